@@ -337,6 +337,7 @@ WORKLOADS = [
     Workload("random_long", w_random_long, 300, 30000),
     Workload("sdd", w_sdd, 400, 40000),
     Workload("dsp", w_dsp, 12, 400),
+    Workload("repo_tests", lambda ctx, rng, i: core.run_repo_tests(ctx), 1, 1, budget=1800, tiers=("thorough",)),
 ]
 
 
